@@ -477,11 +477,29 @@ func r1011MetadataKeys(c *an.Ctx, rule string) {
 			continue
 		}
 		var probs []string
+		// template variables that name a key: {{ $key := printf "%q" .Name }} (the definition in force is the last one
+		// above the use)
+		reDef := regexp.MustCompile(`\{\{-?\s*(\$\w+)\s*:?=\s*printf "%q" ((?:\.\w+)+)\s*-?\}\}`)
+		reUse := regexp.MustCompile(`\.(Append|Get|Set)\((?:ctx, )?\{\{\s*(\$\w+)\s*\}\}`)
+		defs := map[string]string{}
 		for ln, line := range strings.Split(t.Src, "\n") {
+			for _, m := range reDef.FindAllStringSubmatch(line, -1) {
+				defs[m[1]] = m[2]
+			}
 			for _, m := range re.FindAllStringSubmatch(line, -1) {
 				sites++
 				if m[2] != ".Name" && m[2] != ".Metadata.Name" {
 					probs = append(probs, fmt.Sprintf("line %d: metadata %s is keyed by %s instead of the mapped key (.Name)", ln+1, m[1], m[2]))
+				}
+			}
+			for _, m := range reUse.FindAllStringSubmatch(line, -1) {
+				field, known := defs[m[2]]
+				if !known {
+					continue // a variable the rule cannot resolve: not decided
+				}
+				sites++
+				if field != ".Name" && field != ".Metadata.Name" {
+					probs = append(probs, fmt.Sprintf("line %d: metadata %s is keyed by %s = %s instead of the mapped key (.Name)", ln+1, m[1], m[2], field))
 				}
 			}
 		}
